@@ -984,6 +984,47 @@ def pipeline_docs(tier, seed):
     return docs
 
 
+def run_batch(work, name, reqs):
+    """vhist batch over the requests, sharded; restarts after a request that killed the
+    process (recorded as crash) or did not return within the watchdog time (hang)."""
+    import subprocess
+    from concurrent.futures import ThreadPoolExecutor
+    shards = [reqs[i::run.NCPU] for i in range(run.NCPU)]
+
+    def one(k):
+        if not shards[k]:
+            return []
+        cp = work.path(name, "req%d.ndjson" % k)
+        op = work.path(name, "res%d.ndjson" % k)
+        out = []
+        todo = list(shards[k])
+        while todo:
+            with open(cp, "w") as f:
+                for r in todo:
+                    f.write(json.dumps(r) + "\n")
+            r = subprocess.run("ulimit -v 8000000; exec %s batch %s %s" % (run.vhist_bin(), cp, op), shell=True,
+                               executable="/bin/bash", capture_output=True, text=True, env=run.clean_env(),
+                               timeout=3000)
+            got = run.read_ndjson(op) if os.path.exists(op) else []
+            out += got
+            if r.returncode == 0:
+                break
+            try:
+                ci = int(open(op + ".progress").read())
+            except Exception:
+                raise run.ToolError("vhist batch failed: " + r.stderr[-300:])
+            if r.returncode == 3 and got and got[-1].get("outcome") == "hang":
+                pass  # the compiler did not return within the timeout: recorded by vhist
+            else:
+                # the process died (stack overflow / abort): the case in progress is a crash
+                out.append({"id": todo[ci]["id"], "outcome": "crash", "class": "crash",
+                            "msg": "process exit %d: %s" % (r.returncode, r.stderr[-200:])})
+            todo = todo[ci + 1:]
+        return out
+    with ThreadPoolExecutor(max_workers=run.NCPU) as ex:
+        return [x for part in ex.map(one, range(run.NCPU)) for x in part]
+
+
 def stage_pipeline(work, tier, seed):
     """C16: Settings::process_grammar (catch_unwind) and the rcomp binary on
     generated documents; outcomes judged by CheckPipeline against Pipeline.Predict."""
@@ -1016,42 +1057,8 @@ def stage_pipeline(work, tier, seed):
             meta[rid] = dict(text=text, attrs=a, algo=st["algo"], lexer=st.get("lexer", "default"), dir=d,
                              st=st)
     # API runs, sharded
-    shards = [reqs[i::run.NCPU] for i in range(run.NCPU)]
-
-    def one(k):
-        if not shards[k]:
-            return []
-        cp = work.path("pipeline", "req%d.ndjson" % k)
-        op = work.path("pipeline", "res%d.ndjson" % k)
-        with open(cp, "w") as f:
-            for r in shards[k]:
-                f.write(json.dumps(r) + "\n")
-        out = []
-        todo = list(shards[k])
-        while todo:
-            with open(cp, "w") as f:
-                for r in todo:
-                    f.write(json.dumps(r) + "\n")
-            r = subprocess.run("ulimit -v 8000000; exec %s batch %s %s" % (run.vhist_bin(), cp, op), shell=True,
-                               executable="/bin/bash", capture_output=True, text=True, env=run.clean_env(),
-                               timeout=1200)
-            got = run.read_ndjson(op) if os.path.exists(op) else []
-            out += got
-            if r.returncode == 0:
-                break
-            ci = int(open(op + ".progress").read())
-            if r.returncode == 3 and got and got[-1].get("outcome") == "hang":
-                pass  # the compiler did not return within the timeout: recorded by vhist
-            else:
-                # the process died (stack overflow / abort): the case in progress is a crash
-                out.append({"id": todo[ci]["id"], "outcome": "crash", "class": "crash",
-                            "msg": "process exit %d: %s" % (r.returncode, r.stderr[-200:])})
-            out = [x for x in out]
-            todo = todo[ci + 1:]
-        return out
     from concurrent.futures import ThreadPoolExecutor
-    with ThreadPoolExecutor(max_workers=run.NCPU) as ex:
-        results = [x for part in ex.map(one, range(run.NCPU)) for x in part]
+    results = run_batch(work, "pipeline", reqs)
     recs = []
     for r in results:
         m = meta[r["id"]]
@@ -1563,29 +1570,15 @@ def stage_builder(work, tier, seed):
                      "out_dir": os.path.join(d, "out"), "out_dir_actions": os.path.join(d, "out"),
                      "want_grammar": True})
         meta[did] = (doc, text)
-    shards = [reqs[i::run.NCPU] for i in range(run.NCPU)]
-
-    def one(k):
-        if not shards[k]:
-            return []
-        cp = work.path("builder", "req%d.ndjson" % k)
-        op = work.path("builder", "res%d.ndjson" % k)
-        with open(cp, "w") as f:
-            for r in shards[k]:
-                f.write(json.dumps(r) + "\n")
-        r = subprocess.run([run.vhist_bin(), "batch", cp, op], capture_output=True, text=True,
-                           env=run.clean_env(), timeout=1800)
-        if r.returncode != 0:
-            raise run.ToolError("vhist batch failed: " + r.stderr[-300:])
-        return run.read_ndjson(op)
-    from concurrent.futures import ThreadPoolExecutor
-    with ThreadPoolExecutor(max_workers=run.NCPU) as ex:
-        results = [x for part in ex.map(one, range(run.NCPU)) for x in part]
+    results = run_batch(work, "builder", reqs)
     recs = []
     rejected = []
+    aborts = []
     for r in results:
+        if r.get("outcome") in ("panic", "crash", "hang") or r.get("g", {}).get("err") == "panic":
+            aborts.append(dict(id=r["id"], cls=r.get("outcome"), msg=(r.get("msg") or r.get("g", {}).get("msg", ""))[:200]))
         if "err" in r.get("g", {"err": 1}):
-            rejected.append((r["id"], r["g"].get("err"), r.get("msg", "")[:100]))
+            rejected.append((r["id"], r.get("g", {}).get("err"), r.get("msg", "")[:100]))
             continue
         recs.append({"id": r["id"], "doc": meta[r["id"]][0], "g": r["g"]})
     envs = []
@@ -1602,7 +1595,8 @@ def stage_builder(work, tier, seed):
     verdicts = [v for r in rs for v in r["verdicts"]]
     nsugar = sum(1 for did, (doc, _) in meta.items() for r in doc["rules"] for a in r["alts"] for x in a["syms"] if x["op"])
     return {"verdicts": [v for v in verdicts if v["bad"]], "gtext": {v["id"]: meta[v["id"]][1] for v in verdicts if v["bad"]},
-            "rejected": rejected[:20], "nrejected": len(rejected),
+            "rejected": rejected[:20], "nrejected": len(rejected), "aborts": aborts[:50],
+            "texts": {a["id"]: meta[a["id"]][1] for a in aborts[:50] if a["id"] in meta},
             "states": sum(r["distinct"] for r in rs), "transitions": sum(r["states"] for r in rs),
             "ncases": len(docs), "ntraces": len(verdicts), "nsugar_uses": nsugar,
             "samples": [dict(id=did, text=meta[did][1]) for did in list(meta)[:40:15]]}
@@ -2042,8 +2036,8 @@ class Context:
 
     def grammar(self, stage, cid):
         st = self.res[stage]
-        if "texts" in st:
-            return st["texts"].get(cid, "")
+        if cid in st.get("texts", {}):
+            return st["texts"][cid]
         gt = st.get("gtext", {})
         return gt.get(cid) or gt.get(cid.rsplit("|", 1)[0]) or ""
 
